@@ -56,8 +56,7 @@ class NodeParser(PushParser):
         try:
             ns_map = self.ns_map if ns_map is None else ns_map
             result = handler.parse(source, ns_map)
-        except (SyntaxError, LookupError) as e:
-            # LookupError: the document declares an unknown encoding
+        except SyntaxError as e:
             raise ParserError(e)
 
         if result is not None:
